@@ -2,3 +2,105 @@
 From BVA Require Import Base.Prelude Base.Result Base.Words Base.Limbs.
 From BVA Require Import Model.Core Model.Ops Model.Arith Model.Conv Model.Auto Spec.Spec Proofs.Common.
 From Coq Require Import ZifyBool ZifyN ZifyNat.
+From BVA Require Import Spec.Prop Model.Run.
+
+(* ------------------------------------------------------------------ one step of the specification *)
+
+Definition s_step (a : bv) (rv : bool) (s e : N) (c : icall) : N * N * N :=
+  let front := fun n => if n <? e - s then (s + n + 1, e, sbit a (s + n)) else (e, e, 2) in
+  let back := fun n => if n <? e - s then (s, e - (n + 1), sbit a (e - (n + 1))) else (s, s, 2) in
+  match c with
+  | INext => if rv then back 0 else front 0
+  | INextBack => if rv then front 0 else back 0
+  | INth n => if rv then back n else front n
+  | INthBack n => if rv then front n else back n
+  | ISizeHint | ICount => (s, e, e - s)
+  | ILast => if s <? e then (s, e, sbit a (if rv then s else e - 1)) else (s, e, 2)
+  | IRev => (s, e, 3)
+  end.
+
+Definition rv_next (rv : bool) (c : icall) : bool :=
+  match c with IRev => negb rv | _ => rv end.
+
+Lemma s_iter_cons a rv s e c r :
+  s_iter a rv s e (c :: r) =
+  let '(s', e', ans) := s_step a rv s e c in ans :: s_iter a (rv_next rv c) s' e' r.
+Proof. reflexivity. Qed.
+
+Lemma iter_run_cons getb (rv : bool) st c r :
+  iter_run getb rv st (c :: r) =
+  (let! (s, e, a) := (if rv then rev_call else iter_step) getb st c in
+   let! rest := iter_run getb (rv_next rv c) (s, e) r in
+   Ok (a :: rest)).
+Proof. reflexivity. Qed.
+
+(* the cursor invariant s <= e <= blen a is preserved by every call *)
+Lemma s_step_inv a rv s e c s' e' ans :
+  s <= e -> e <= blen a -> s_step a rv s e c = (s', e', ans) -> s' <= e' /\ e' <= blen a.
+Proof.
+  intros Hse He H. unfold s_step in H.
+  destruct c as [| |n|n| | | |]; destruct rv;
+    try (destruct (N.ltb_spec 0 (e - s)); inversion H; subst; lia);
+    try (destruct (N.ltb_spec n (e - s)); inversion H; subst; lia);
+    try (destruct (N.ltb_spec s e); inversion H; subst; lia);
+    try (inversion H; subst; lia).
+Qed.
+
+(* the model step computes the specification step *)
+Lemma step_refines getb a (rv : bool) s e c :
+  s <= e -> e <= blen a ->
+  (forall i, i < blen a -> getb i = Ok (sbit a i)) ->
+  (if rv then rev_call else iter_step) getb (s, e) c = Ok (s_step a rv s e c).
+Proof.
+  intros Hse He Hg. unfold s_step.
+  destruct c as [| |n|n| | | |]; destruct rv; cbn [rev_call iter_step];
+    try reflexivity.
+  (* INext *)
+  - destruct (N.ltb_spec s e); destruct (N.ltb_spec 0 (e - s)); try lia; [|assert (e = s) by lia; subst e; reflexivity].
+    rewrite Hg by lia. rewrite bind_Ok_l. replace (e - (0 + 1)) with (e - 1) by lia. reflexivity.
+  - destruct (N.ltb_spec s e); destruct (N.ltb_spec 0 (e - s)); try lia; [|assert (e = s) by lia; subst e; reflexivity].
+    rewrite Hg by lia. rewrite bind_Ok_l. replace (s + 0) with s by lia. reflexivity.
+  (* INextBack *)
+  - destruct (N.ltb_spec s e); destruct (N.ltb_spec 0 (e - s)); try lia; [|assert (e = s) by lia; subst e; reflexivity].
+    rewrite Hg by lia. rewrite bind_Ok_l. replace (s + 0) with s by lia. reflexivity.
+  - destruct (N.ltb_spec s e); destruct (N.ltb_spec 0 (e - s)); try lia; [|assert (e = s) by lia; subst e; reflexivity].
+    rewrite Hg by lia. rewrite bind_Ok_l. replace (e - (0 + 1)) with (e - 1) by lia. reflexivity.
+  (* INth *)
+  - destruct (N.ltb_spec n (e - s)); [|reflexivity]. rewrite Hg by lia. reflexivity.
+  - destruct (N.ltb_spec n (e - s)); [|reflexivity]. rewrite Hg by lia. reflexivity.
+  (* INthBack *)
+  - destruct (N.ltb_spec n (e - s)); [|reflexivity]. rewrite Hg by lia. reflexivity.
+  - destruct (N.ltb_spec n (e - s)); [|reflexivity]. rewrite Hg by lia. reflexivity.
+  (* ILast *)
+  - destruct (N.ltb_spec s e); [|reflexivity]. rewrite Hg by lia. reflexivity.
+  - destruct (N.ltb_spec s e); [|reflexivity]. rewrite Hg by lia. reflexivity.
+Qed.
+
+Lemma iter_refines getb a rv s e cs :
+  s <= e -> e <= blen a ->
+  (forall i, i < blen a -> getb i = Ok (sbit a i)) ->
+  iter_run getb rv (s, e) cs = Ok (s_iter a rv s e cs).
+Proof.
+  intros Hse He Hg. revert rv s e Hse He.
+  induction cs as [|c r IH]; intros rv s e Hse He; [reflexivity|].
+  rewrite iter_run_cons, s_iter_cons.
+  rewrite (step_refines getb a rv s e c Hse He Hg), bind_Ok_l.
+  destruct (s_step a rv s e c) as [[s' e'] ans] eqn:Hs.
+  destruct (s_step_inv a rv s e c s' e' ans Hse He Hs) as [Hse' He'].
+  rewrite (IH _ s' e' Hse' He'), bind_Ok_l. reflexivity.
+Qed.
+
+(* the cursor invariant and absorption of exhaustion, stated on the spec side *)
+Lemma s_iter_exhausted a rv s cs :
+  Forall (fun c => match c with INext | INextBack | INth _ | INthBack _ | ILast => True | _ => False end) cs ->
+  s_iter a rv s s cs = map (fun _ => 2) cs.
+Proof.
+  intros H. induction H as [|c r Hc Hr IH]; [reflexivity|].
+  rewrite s_iter_cons. cbn [map].
+  assert (s_step a rv s s c = (s, s, 2) /\ rv_next rv c = rv) as [E1 E2].
+  { unfold s_step, rv_next. destruct c as [| |n|n| | | |]; try contradiction; destruct rv;
+      rewrite ?N.sub_diag, ?N.ltb_irrefl;
+      try (destruct (N.ltb_spec 0 0); [lia|]); try (destruct (N.ltb_spec n 0); [lia|]);
+      split; reflexivity. }
+  rewrite E1, E2, IH. reflexivity.
+Qed.
